@@ -551,7 +551,7 @@ def check_foreign_avlst(case):
     mname, mode = case
     m = getattr(MSO_SHAPE, mname)
     stdadj = std_adjustments(m.xml_value)
-    if not stdadj or len(stdadj) < 2:
+    if not stdadj or (len(stdadj) < 2 and mode != "absent"):
         return
     A = "http://schemas.openxmlformats.org/drawingml/2006/main"
     prs = Presentation()
@@ -562,7 +562,11 @@ def check_foreign_avlst(case):
     for ch in list(avLst):
         avLst.remove(ch)
     n = len(stdadj)
-    if mode == "last-only":
+    if mode == "absent":
+        # a:avLst is optional in the schema: without it every adjustment is at its default
+        avLst.getparent().remove(avLst)
+        keep = []
+    elif mode == "last-only":
         keep = [n - 1]
     elif mode == "reversed":
         keep = list(range(n - 1, -1, -1))
@@ -938,7 +942,7 @@ def run_job(job, seed, tier, rec, known):
     classes, aliases = xml_enums()
     if k == "foreign-avlst":
         from pptx.enum.shapes import MSO_SHAPE
-        cases = [[m.name, mode] for m in MSO_SHAPE if m.xml_value for mode in ("last-only", "reversed", "skip-first")]
+        cases = [[m.name, mode] for m in MSO_SHAPE if m.xml_value for mode in ("last-only", "reversed", "skip-first", "absent")]
         cases = [c for i, c in enumerate(cases) if cases.index(c) == i]
         f = _tag(run_plain(check_foreign_avlst, cases, rec=rec, known=known), "foreign-avlst")
         n = sum(1 for mn, _md in cases if (std_adjustments(getattr(MSO_SHAPE, mn).xml_value) or [None])[1:])
